@@ -390,8 +390,19 @@ def r06_10(run, model):
                        "constructor index (or lowering must be given the package's constructors)")
     LOWER = "crates/ast/src/lower.rs"
     NR = "crates/compiler/src/typer/name_resolution.rs"
-    cc = model.fn("collect_constructor_names", LOWER)
-    per_file = len([p for p in cc.params() if not p["self"]]) == 1 and "cst::File" in (cc.params()[0]["ty"] or "")
+    # the collector of the constructor names is recognised by what it does (inserts into a set under an `Item::Enum` arm), not by its name
+    ccs = []
+    for g in model.fns(LOWER):
+        if g.body is None or g.test:
+            continue
+        for m in S.find(g.body, "Match"):
+            if any(re.search(r"Item::Enum\b", S.norm_ws(run.facts.text(LOWER, a["pat"]["sp"]))) and
+                   any(c["method"] in ("insert", "extend") for c in S.find(a["body"], "MethodCall")) for a in m["arms"]):
+                ccs.append(g)
+                break
+    if not ccs:
+        raise AnalysisIncomplete("ast::lower: no function collects constructor names from the enum items")
+    per_file = all(len([p for p in cc.params() if not p["self"]]) == 1 and "cst::File" in ([p for p in cc.params() if not p["self"]][0]["ty"] or "") for cc in ccs)
     rp = model.fn("resolve_pat", NR)
     consults = False
     n = 0
